@@ -254,3 +254,44 @@ theorem runChain_drop_pass (b : Behavior) (m : Model) (st : SrvState) (r : Req) 
     · simp [runChain, hj, ih]
 
 end Gallia.Server
+
+namespace Gallia.Server
+open Gallia Gallia.IsoDefault
+
+/-- association lists (what the harness extracts from `RandomUDSServer.services`) give a well-formed model -/
+theorem ofAssoc_wf (a : List (Sess × List (Sid × Option (List SubFn)))) : (Model.ofAssoc a).WF := by
+  intro s
+  simp only [Model.ofAssoc, Option.isSome_map]
+  induction a with
+  | nil => simp [List.lookup]
+  | cons e rest ih =>
+    obtain ⟨k, v⟩ := e
+    by_cases hk : s = k
+    · subst hk; simp [List.lookup]
+    · have : (s == k) = false := by simpa using hk
+      simp [List.lookup, this, hk, ih]
+
+theorem lookup_mem {α β} [BEq α] [LawfulBEq α] (l : List (α × β)) (k : α) (v : β) (h : l.lookup k = some v) :
+    (k, v) ∈ l := by
+  induction l with
+  | nil => simp [List.lookup] at h
+  | cons e rest ih =>
+    obtain ⟨k', v'⟩ := e
+    by_cases hk : k = k'
+    · subst hk; simp [List.lookup] at h; simp [h]
+    · have : (k == k') = false := by simpa using hk
+      simp [List.lookup, this] at h
+      exact List.mem_cons_of_mem _ (ih h)
+
+/-- ... whose sub-function services carry lists when the entries do -/
+theorem ofAssoc_listed (a : List (Sess × List (Sid × Option (List SubFn))))
+    (hall : ∀ e ∈ a, ∀ p ∈ e.2, p.1 ∈ subFnServices → p.2 ≠ none) :
+    ∀ s sm, (Model.ofAssoc a).get s = some sm → ∀ sid ∈ subFnServices, sm sid ≠ some none := by
+  intro s sm hg sid hsid hn
+  simp only [Model.ofAssoc, Option.map_eq_some_iff] at hg
+  obtain ⟨al, hl, rfl⟩ := hg
+  have h1 := lookup_mem a s al hl
+  have h2 := lookup_mem al sid none hn
+  exact hall _ h1 _ h2 hsid rfl
+
+end Gallia.Server
